@@ -427,8 +427,9 @@ def buffer_and_expression_shapes(tier):
 
 
 def shapes(tier):
+    from checks import c03 as _c03d
     return (utilization_shapes(tier) + count_and_sum_shapes(tier) + idle_shapes(tier) + cost_shapes(tier)
-            + buffer_and_expression_shapes(tier))
+            + buffer_and_expression_shapes(tier) + _c03d.default_shapes(PROP))
 
 
 def main(tier):
@@ -438,7 +439,7 @@ def main(tier):
             "utilisation: user horizon on a concrete grid (the code calls int() on it) or the symbolic horizon variable; value must be within one unit of 100*busy/horizon",
             "due dates >= 0; priorities and cost coefficients symbolic in small ranges (nonlinear products) and on a grid",
             "linear cost: exact integral of the cost function over each busy interval, within the rounding of the final division by 2",
-            "polynomial/general cost functions and ObjectiveMinimizeFlowtimeSingleResource are outside the claim (documented semantics ambiguous, DESIGN 4 C08)",
+            "general cost functions, polynomial costs beyond the documented trapezoid and the value of ObjectiveMinimizeFlowtimeSingleResource are outside the claim (DESIGN 4 C08)",
             "max lateness and min/max start objectives are stated over mandatory tasks",
             "utilisation / idle time of a CumulativeWorker is outside the claim",
         ])
